@@ -20,20 +20,22 @@ theorem findEdge_of_mem (net : Net W) (hu : UniqueIds net) (e : Edge W) (he : e 
     simp only [beq_iff_eq] at hp
     rw [hu e' hm e he hp]
 
-/-- `Route net geo s l g v y`: `l ++ [v]` are the nodes of a walk from `s` to `v` whose consecutive nodes are joined
+/-- `Route net geo s l g g' v y`: `l ++ [v]` are the nodes of a walk from `s` to `v` whose consecutive nodes are joined
 by an existing edge travelled in a direction its orientation permits; `y` is the sum of the weights of those edges;
 `g` is the concatenation of those edges' polylines, each oriented along the direction of travel and each without its
-last vertex (which is the first vertex of the next one, or the position of `v` for the last one). -/
-inductive Route (net : Net W) (geo : Geo P) (s : Nat) : List Nat → List P → Nat → W → Prop
-  | nil : Route net geo s [] [] s 0
-  | snoc {l : List Nat} {g : List P} {a : Nat} {x : W} {v : Nat} (e : Edge W) (line : List P) :
-      Route net geo s l g a x → e ∈ net.edges →
+last vertex (which is the first vertex of the next one, or the position of `v` for the last one); `g'` is the same
+concatenation with each polyline deprived of its first vertex instead (the form of the property's statement:
+`pos s` followed by `g'`). `g` is what the code builds; `Route.geom_eq` shows the two coincide. -/
+inductive Route (net : Net W) (geo : Geo P) (s : Nat) : List Nat → List P → List P → Nat → W → Prop
+  | nil : Route net geo s [] [] [] s 0
+  | snoc {l : List Nat} {g g' : List P} {a : Nat} {x : W} {v : Nat} (e : Edge W) (line : List P) :
+      Route net geo s l g g' a x → e ∈ net.edges →
       ((0 ≤ e.ori ∧ e.src = a ∧ e.tgt = v ∧ line = geo.line e.id) ∨
        (e.ori ≤ 0 ∧ e.tgt = a ∧ e.src = v ∧ line = (geo.line e.id).reverse)) →
-      Route net geo s (l ++ [a]) (g ++ line.dropLast) v (x + e.w)
+      Route net geo s (l ++ [a]) (g ++ line.dropLast) (g' ++ line.drop 1) v (x + e.w)
 
-theorem Route.walk {net : Net W} {geo : Geo P} {s : Nat} {l : List Nat} {g : List P} {v : Nat} {y : W}
-    (h : Route net geo s l g v y) : Walk net s v y := by
+theorem Route.walk {net : Net W} {geo : Geo P} {s : Nat} {l : List Nat} {g g' : List P} {v : Nat} {y : W}
+    (h : Route net geo s l g g' v y) : Walk net s v y := by
   induction h with
   | nil => exact Walk.nil
   | snoc e line _ he hdir ih =>
@@ -42,11 +44,11 @@ theorem Route.walk {net : Net W} {geo : Geo P} {s : Nat} {l : List Nat} {g : Lis
     · exact Or.inl ⟨a, b, c⟩
     · exact Or.inr ⟨a, b, c⟩
 
-theorem Route.nodes_head {net : Net W} {geo : Geo P} {s : Nat} {l : List Nat} {g : List P} {v : Nat} {y : W}
-    (h : Route net geo s l g v y) : (l ++ [v]).head? = some s := by
+theorem Route.nodes_head {net : Net W} {geo : Geo P} {s : Nat} {l : List Nat} {g g' : List P} {v : Nat} {y : W}
+    (h : Route net geo s l g g' v y) : (l ++ [v]).head? = some s := by
   induction h with
   | nil => rfl
-  | @snoc l g a x v e line _ he hdir ih =>
+  | @snoc l g g' a x v e line _ he hdir ih =>
     cases l with
     | nil => simpa using ih
     | cons b l => simpa using ih
@@ -62,11 +64,11 @@ theorem dropLast_append_of_getLast? (l : List P) (q : P) (h : l.getLast? = some 
   cases h
   exact h1
 
-theorem Route.geom_head {net : Net W} {geo : Geo P} (hgeo : GeoOK net geo) {s : Nat} {l : List Nat} {g : List P}
-    {v : Nat} {y : W} (h : Route net geo s l g v y) : (g ++ [geo.pos v]).head? = some (geo.pos s) := by
+theorem Route.geom_head {net : Net W} {geo : Geo P} (hgeo : GeoOK net geo) {s : Nat} {l : List Nat} {g g' : List P}
+    {v : Nat} {y : W} (h : Route net geo s l g g' v y) : (g ++ [geo.pos v]).head? = some (geo.pos s) := by
   induction h with
   | nil => rfl
-  | @snoc l g a x v e line _ he hdir ih =>
+  | @snoc l g g' a x v e line _ he hdir ih =>
     cases g with
     | cons p g => simpa using ih
     | nil =>
@@ -79,6 +81,29 @@ theorem Route.geom_head {net : Net W} {geo : Geo P} (hgeo : GeoOK net geo) {s : 
       have : line.dropLast ++ [geo.pos v] = line := dropLast_append_of_getLast? _ _ hl.2
       rw [List.nil_append, this, hl.1, hpa]
 
+/-- the geometry the code builds (`g` closed by the position of `v`) is the position of `s` followed by the travel-oriented
+polylines, each without its first vertex — the junction vertices appear once -/
+theorem Route.geom_eq {net : Net W} {geo : Geo P} (hgeo : GeoOK net geo) {s : Nat} {l : List Nat} {g g' : List P}
+    {v : Nat} {y : W} (h : Route net geo s l g g' v y) : g ++ [geo.pos v] = geo.pos s :: g' := by
+  induction h with
+  | nil => rfl
+  | @snoc l g g' a x v e line _ he hdir ih =>
+    obtain ⟨h1, h2⟩ := hgeo e he
+    have hl : line.head? = some (geo.pos a) ∧ line.getLast? = some (geo.pos v) := by
+      rcases hdir with ⟨_, b, c, d⟩ | ⟨_, b, c, d⟩
+      · rw [d, ← b, ← c]; exact ⟨h1, h2⟩
+      · rw [d, ← b, ← c, List.head?_reverse, List.getLast?_reverse]; exact ⟨h2, h1⟩
+    have e1 : line.dropLast ++ [geo.pos v] = line := dropLast_append_of_getLast? _ _ hl.2
+    have e2 : line = geo.pos a :: line.drop 1 := by
+      cases line with
+      | nil => simp at hl
+      | cons p r => simp only [List.head?_cons, Option.some.injEq] at hl; rw [hl.1]; rfl
+    calc (g ++ line.dropLast) ++ [geo.pos v] = g ++ (line.dropLast ++ [geo.pos v]) := by rw [List.append_assoc]
+      _ = g ++ line := by rw [e1]
+      _ = g ++ (geo.pos a :: line.drop 1) := by rw [← e2]
+      _ = (g ++ [geo.pos a]) ++ line.drop 1 := by simp
+      _ = geo.pos s :: (g' ++ line.drop 1) := by rw [ih]; rfl
+
 theorem reverse_drop_one (l : List P) : (l.drop 1).reverse = l.reverse.dropLast := by
   cases l with
   | nil => rfl
@@ -88,15 +113,15 @@ theorem reverse_drop_one (l : List P) : (l.drop 1).reverse = l.reverse.dropLast 
 theorem backAux_step (net : Net W) (hu : UniqueIds net) (geo : Geo P) (s : Nat) (st : St W) (rk : Nat → Nat) (K : Nat)
     (hp : PInv net s st rk K) (f v : Nat) (nodes : List Nat) (track : List P) (a i : Nat)
     (hpv : st.pred v = some (a, i))
-    (hrec : ∀ nodes' track', ∃ l g x, st.d a = some x ∧ Route net geo s l g a x ∧
+    (hrec : ∀ nodes' track', ∃ l g g' x, st.d a = some x ∧ Route net geo s l g g' a x ∧
         backAux net geo st f a nodes' track' = .path (l ++ nodes'.reverse) (g ++ track'.reverse)) :
-    ∃ l g y, st.d v = some y ∧ Route net geo s l g v y ∧
+    ∃ l g g' y, st.d v = some y ∧ Route net geo s l g g' v y ∧
       backAux net geo st (f+1) v nodes track = .path (l ++ nodes.reverse) (g ++ track.reverse) := by
   obtain ⟨hav, _, e, he, hid, hoth, x, hda, hdv⟩ := hp.p2 v a i hpv
   have hmem : e ∈ net.edges := by simp only [nextEdges, List.mem_filter] at he; exact he.1
   have hfind : findEdge net i = some e := by rw [← hid]; exact findEdge_of_mem net hu e hmem
   let g1 : List P := if e.src ≠ v then (geo.line i).reverse else geo.line i
-  obtain ⟨l, g, x', hx', hroute, hback⟩ := hrec (nodes ++ [a]) (track ++ g1.drop 1)
+  obtain ⟨l, g, g', x', hx', hroute, hback⟩ := hrec (nodes ++ [a]) (track ++ g1.drop 1)
   rw [hda] at hx'
   have hxx : x' = x := (Option.some.inj hx').symm
   subst hxx
@@ -117,7 +142,7 @@ theorem backAux_step (net : Net W) (hu : UniqueIds net) (geo : Geo P) (s : Nat) 
       rw [if_pos h2] at hoth
       refine ⟨h1, h2, hoth, ?_⟩
       simp only [g1, hoth, ne_eq, not_true_eq_false, if_false, hid]
-  refine ⟨l ++ [a], g ++ g1.reverse.dropLast, x' + e.w, hdv, Route.snoc e g1.reverse hroute hmem hdir, ?_⟩
+  refine ⟨l ++ [a], g ++ g1.reverse.dropLast, g' ++ g1.reverse.drop 1, x' + e.w, hdv, Route.snoc e g1.reverse hroute hmem hdir, ?_⟩
   conv => lhs; unfold backAux
   simp only [hpv, hfind]
   rw [hback]
@@ -127,7 +152,7 @@ theorem backAux_step (net : Net W) (hu : UniqueIds net) (geo : Geo P) (s : Nat) 
 theorem backAux_spec (net : Net W) (hu : UniqueIds net) (geo : Geo P) (s : Nat) (st : St W) (rk : Nat → Nat) (K : Nat)
     (hinv : Inv net s st) (hp : PInv net s st rk K) (f v : Nat) (nodes : List Nat) (track : List P)
     (hv : st.vis v = true) (hf : rk v < f) :
-    ∃ l g y, st.d v = some y ∧ Route net geo s l g v y ∧
+    ∃ l g g' y, st.d v = some y ∧ Route net geo s l g g' v y ∧
       backAux net geo st f v nodes track = .path (l ++ nodes.reverse) (g ++ track.reverse) := by
   induction f generalizing v nodes track with
   | zero => omega
@@ -140,7 +165,7 @@ theorem backAux_spec (net : Net W) (hu : UniqueIds net) (geo : Geo P) (s : Nat) 
         have := hp.p3 v x hne hx
         rw [hpv] at this; cases this
       subst hvs
-      refine ⟨[], [], 0, hinv.j1, Route.nil, ?_⟩
+      refine ⟨[], [], [], 0, hinv.j1, Route.nil, ?_⟩
       unfold backAux
       simp [hpv]
     | some p =>
@@ -154,7 +179,7 @@ theorem backAux_spec (net : Net W) (hu : UniqueIds net) (geo : Geo P) (s : Nat) 
 theorem runBackward_spec (net : Net W) (hu : UniqueIds net) (geo : Geo P) (s : Nat) (st : St W)
     (hg : Good net s st) (t : Nat) :
     (st.pred t = none → runBackward net geo st t = .none) ∧
-    (∀ p, st.pred t = some p → ∃ l g y, st.d t = some y ∧ Route net geo s l g t y ∧
+    (∀ p, st.pred t = some p → ∃ l g g' y, st.d t = some y ∧ Route net geo s l g g' t y ∧
         runBackward net geo st t = .path (l ++ [t]) (g ++ [geo.pos t])) := by
   obtain ⟨hinv, rk, K, hp⟩ := hg
   constructor
@@ -166,9 +191,9 @@ theorem runBackward_spec (net : Net W) (hu : UniqueIds net) (geo : Geo P) (s : N
       have := hp.p4 a hva
       have := hp.p6
       omega
-    obtain ⟨l, g, y, h1, h2, h3⟩ := backAux_step net hu geo s st rk K hp net.n t [t] [geo.pos t] a i hpt
+    obtain ⟨l, g, g', y, h1, h2, h3⟩ := backAux_step net hu geo s st rk K hp net.n t [t] [geo.pos t] a i hpt
       (fun nodes' track' => backAux_spec net hu geo s st rk K hinv hp net.n a nodes' track' hva hK)
-    refine ⟨l, g, y, h1, h2, ?_⟩
+    refine ⟨l, g, g', y, h1, h2, ?_⟩
     unfold runBackward
     rw [hpt]
     simpa using h3
